@@ -263,6 +263,9 @@ class DependencyTransformation(Transformation):
         for call in FindNodes(CallStatement).visit(routine.body):
             if call.name in members:
                 continue
+            if str(call.name).lower().endswith(self.suffix.lower()):
+                # Already re-pointed by an earlier application of this transformation
+                continue
             if targets is None or call.name in targets:
                 orig_name = str(call.name)
                 new_name = f'{orig_name}{self.suffix}'
@@ -272,6 +275,8 @@ class DependencyTransformation(Transformation):
 
         for call in FindInlineCalls(unique=False).visit(routine.body):
             if call.function in members:
+                continue
+            if str(call.name).lower().endswith(self.suffix.lower()):
                 continue
             if targets is None or call.function in targets:
                 orig_name = str(call.name)
@@ -391,6 +396,8 @@ class DependencyTransformation(Transformation):
         for i in intfs:
             for routine in i.body:
                 if isinstance(routine, Subroutine):
+                    if routine.name.lower().endswith(self.suffix.lower()):
+                        continue
                     if targets and routine.name.lower() in targets:
                         routine.name = f'{routine.name}{self.suffix}'
 
